@@ -654,3 +654,49 @@ func verifH_C02_same_fragment() {
 	verifAssert(ext != nil && ext.Value != nil && ext.Value.Type.Is("string") && ext.Value.MinLength == 6, "C02 same fragment: the reference inside the external file resolves to that file's B")
 	verifReach("end")
 }
+
+//verif:harness id=C02 tier=quick,thorough witness=end bounds="path item references: paths./a is a reference to a whole external file, to a fragment of an external file's paths (with the ~1 escape), to a path item in a sub-directory whose operation refers to a schema file next to it, or to another path item of the same document x both entry points; after loading the path item has the target's operations and their nested references are resolved against the target's file"
+func verifH_C02_path_items() {
+	files := map[string]string{
+		"/r/pi.json":    `{"get":{"operationId":"fromFile","responses":{"200":{"description":"d"}}}}`,
+		"/r/x3.json":    `{"paths":{"/p":{"get":{"operationId":"fromFragment","responses":{"200":{"description":"d"}}}}}}`,
+		"/r/d/pi2.json": `{"get":{"operationId":"fromDir","responses":{"200":{"description":"d","content":{"application/json":{"schema":{"$ref":"s.json"}}}}}}}`,
+		"/r/d/s.json":   `{"type":"integer","minimum":7}`,
+		"/r/s.json":     `{"type":"boolean"}`,
+	}
+	shape := verifChoose("shape", 4)
+	ref := []string{"pi.json", "x3.json#/paths/~1p", "d/pi2.json", "#/paths/~1other"}[shape]
+	wantID := []string{"fromFile", "fromFragment", "fromDir", "other"}[shape]
+	rootText := `{"openapi":"3.0.0","info":{"title":"t","version":"1"},"paths":{"/a":{"$ref":"` + ref + `"},"/other":{"get":{"operationId":"other","responses":{"200":{"description":"d"}}}}}}`
+	rootLoc := &url.URL{Path: "/r/doc.json"}
+	loader := NewLoader()
+	loader.IsExternalRefsAllowed = true
+	loader.ReadFromURIFunc = func(_ *Loader, u *url.URL) ([]byte, error) {
+		if u.Path == rootLoc.Path {
+			return []byte(rootText), nil
+		}
+		if t, ok := files[u.Path]; ok {
+			return []byte(t), nil
+		}
+		return nil, errors.New("no such file")
+	}
+	var doc *T
+	var err error
+	if verifChoose("entry", 2) == 0 {
+		doc, err = loader.LoadFromDataWithPath([]byte(rootText), rootLoc)
+	} else {
+		doc, err = loader.LoadFromURI(rootLoc)
+	}
+	verifAssert(err == nil && doc != nil, "C02 path items: a document whose path item reference has a target loads")
+	if err != nil || doc == nil {
+		return
+	}
+	pi := doc.Paths.Value("/a")
+	verifAssert(pi != nil && pi.Get != nil && pi.Get.OperationID == wantID, "C02 path items: the path item has the operations of the object the reference designates")
+	if shape == 2 && pi != nil && pi.Get != nil {
+		r := pi.Get.Responses.Value("200")
+		ok := r != nil && r.Value != nil && r.Value.Content["application/json"] != nil && r.Value.Content["application/json"].Schema != nil && r.Value.Content["application/json"].Schema.Value != nil
+		verifAssert(ok && r.Value.Content["application/json"].Schema.Value.Type.Is("integer"), "C02 path items: a reference inside an external path item resolves against the path item's file")
+	}
+	verifReach("end")
+}
